@@ -956,7 +956,7 @@ package p9
 //@   ensures[C04] @opened-dir-refused old(has(cs.fids, t.OldDirectory)) && old(has(cs.fids, t.NewDirectory)) && old(cs.fids[t.OldDirectory].opened) ==> typeis(result, *rlerror) && nocalls()
 //@   ensures[C08] @fenced-refused old(has(cs.fids, t.OldDirectory)) && old(has(cs.fids, t.NewDirectory)) && (old(fenced(cs.fids[t.OldDirectory])) || old(fenced(cs.fids[t.NewDirectory]))) ==> typeis(result, *rlerror) && nocalls()
 //@   at File.RenameAt requires[C03] @forwards recv == old(cs.fids[t.OldDirectory]).file && arg0 == old(t.OldName) && arg1 == old(cs.fids[t.NewDirectory]).file && arg2 == old(t.NewName)
-//@   at (*fidRef).renameChildTo requires[C08] @tree-updated-only-after-success ghost("$lasterr", error) == nil && ncalls("File.RenameAt") == old(ncalls("File.RenameAt")) + 1 && recv == old(cs.fids[t.OldDirectory]) && arg0 == old(t.OldName) && arg1 == old(cs.fids[t.NewDirectory]) && arg2 == old(t.NewName)
+//@   at (*fidRef).renameChildTo requires[C03,C08] @tree-updated-only-after-success ghost("$lasterr", error) == nil && ncalls("File.RenameAt") == old(ncalls("File.RenameAt")) + 1 && recv == old(cs.fids[t.OldDirectory]) && arg0 == old(t.OldName) && arg1 == old(cs.fids[t.NewDirectory]) && arg2 == old(t.NewName)
 //@   ensures[C15] @backend-error-reported ncalls("File.RenameAt") > old(ncalls("File.RenameAt")) && ncalls("(*fidRef).renameChildTo") == 0 ==> isErr(result, errno(ghost("$lasterr", error)))
 
 //@ func (*trename).handle
@@ -968,7 +968,7 @@ package p9
 //@   ensures[C04] @root-einval safe(old(t.Name)) && old(has(cs.fids, t.fid)) && old(has(cs.fids, t.Directory)) && old(cs.fids[t.fid].parent) == nil ==> isErr(result, linux.EINVAL) && nocalls()
 //@   ensures[C08] @fenced-refused safe(old(t.Name)) && old(has(cs.fids, t.fid)) && old(has(cs.fids, t.Directory)) && old(cs.fids[t.fid].parent) != nil && (old(fenced(cs.fids[t.fid])) || old(fenced(cs.fids[t.Directory]))) ==> isErr(result, linux.EINVAL) && nocalls()
 //@   at File.RenameAt requires[C03,C08] @parent-and-current-name recv == old(cs.fids[t.fid].parent).file && arg0 == old(cs.fids[t.fid].parent.pathNode.childRefNames[cs.fids[t.fid]]) && arg1 == old(cs.fids[t.Directory]).file && arg2 == old(t.Name)
-//@   at (*fidRef).renameChildTo requires[C08] @tree-updated-only-after-success ghost("$lasterr", error) == nil && ncalls("File.RenameAt") == old(ncalls("File.RenameAt")) + 1 && recv == old(cs.fids[t.fid].parent) && arg1 == old(cs.fids[t.Directory]) && arg2 == old(t.Name)
+//@   at (*fidRef).renameChildTo requires[C03,C08] @tree-updated-only-after-success ghost("$lasterr", error) == nil && ncalls("File.RenameAt") == old(ncalls("File.RenameAt")) + 1 && recv == old(cs.fids[t.fid].parent) && arg1 == old(cs.fids[t.Directory]) && arg2 == old(t.Name)
 
 // ---- walk ---------------------------------------------------------------------------
 //@ func walkOne
@@ -1173,6 +1173,7 @@ package p9
 //@   at lookup requires[C02] @looks-up-only-accepted-sizes 7 <= size && size <= msize && size <= maximumLength
 //@   at lookup requires[C01,C02] @header-fields-little-endian size == uint32(hdr[0]) | uint32(hdr[1]) << 8 | uint32(hdr[2]) << 16 | uint32(hdr[3]) << 24 && arg1 == msgType(hdr[4]) && arg0 == tag(uint16(hdr[5]) | uint16(hdr[6]) << 8)
 //@   at (Buffers).ReadFrom requires[C02,C17] @reads-body-only-for-accepted-sizes 7 <= size && size <= msize && size <= maximumLength
+//@   at message.decode requires[C02,C18] @decode-sees-only-this-frame len(dataBuf.data) <= int(remaining)
 //@   at message.decode requires[C02,C18] @decodes-only-a-completely-read-body ncalls("(Buffers).ReadFrom") == 1 || remaining == 0
 //@   ensures[C02,C06] @message-iff-no-error (result2 == nil) == (result1 != nil)
 //@   ensures[C02] @tiny-or-oversized-frame-ends-connection ncalls("lookup") == 0 ==> typeis(result2, ConnError) && 0 <= ghost("$consumed", int) - old(ghost("$consumed", int)) && ghost("$consumed", int) - old(ghost("$consumed", int)) <= 7 && ncalls("io.LimitReader") == 0 && ncalls("(Buffers).ReadFrom") == 0
@@ -1189,6 +1190,8 @@ package p9
 //@   at (*buffer).WriteTag requires[C01,C06] @tag-field arg0 == tag
 //@   at (*net.Buffers).WriteTo requires[C01,C06] @header-then-fixed-then-payload ncalls("(*buffer).Write32") == 1 && ncalls("(*buffer).WriteMsgType") == 1 && ncalls("(*buffer).WriteTag") == 1 && len(*recv) >= 1 && arr((*recv)[0]) == arr(headerBuf.data) && len((*recv)[0]) == 7
 //@   ensures[C01,C06] @one-contiguous-write ncalls("(*net.Buffers).WriteTo") == 1
+//@   at (*net.Buffers).WriteTo requires[C01,C18] @no-buffer-released-before-the-frame-is-written ncalls("(*sync.Pool).Put") == 0
+//@   ensures[C18] @encode-buffer-released-at-most-once ncalls("(*sync.Pool).Put") <= 1
 //@   safety[C02]
 
 //@ func (*registry).put
@@ -1197,6 +1200,8 @@ package p9
 
 //@ func (*connState).handleRequest
 //@   use handlerBase localLocks
+//@   ensures[C18] @request-object-recycled-at-most-once ncalls("(*registry).put") <= 1
+//@   at (*registry).put requires[C18] @recycled-only-after-the-reply-was-sent ncalls("send") == 1 && ncalls("(*connState).handle") == 1
 //@   requires[C06] cs.server != nil
 //@   at send requires[C06] @frames-are-contiguous held(cs.sendMu) == -1
 //@   at send requires[C06] @reply-carries-request-tag arg2 == ghost("$ret.tag", tag)
@@ -1739,17 +1744,25 @@ package p9
 
 // Rreaddir: count[4] then, as payload, the whole entries that fit in the
 // requested byte count.
+// psize(es, k): encoded size of the first k entries (24 + len(name) each). It
+// is introduced by the prop-less precondition below (an uninterpreted function
+// constrained for this call's entry list only), not by a global axiom.
+//@ declare psize(es []Dirent, k int) int
 //@ func (*rreaddir).encode
+//@   requires psize(r.Entries, 0) == 0 && forall(k, 0, len(r.Entries), psize(r.Entries, k+1) == psize(r.Entries, k) + 24 + len(r.Entries[k].Name))
 //@   requires[C01,C13] forall(j, 0, len(r.Entries), len(r.Entries[j].Name) <= 65535)
+//@   requires[C01,C13] @list-fits-the-address-space len(r.Entries) <= 1000000
 //@   modifies $wr, b.data, arrays(byte), self.Count, self.payload
 //@   ensures[C13,C19] @payload-within-requested-count len(r.payload) <= int(old(r.Count))
 //@   ensures[C01,C13] @count-is-payload-length r.Count == uint32(len(r.payload)) && len(r.payload) >= 0
 //@   ensures[C01] @wire-layout wr(b) == snoc32(old(wr(b)), r.Count)
 //@   ensures[C01,C13] @encoded-size len(b.data) == old(len(b.data)) + 4
+//@   ensures[C01] @longest-prefix-of-whole-entries-that-fits exists(k, 0, len(r.Entries) + 1, len(r.payload) == psize(old(r.Entries), k) && (k == len(r.Entries) || psize(old(r.Entries), k + 1) > int(old(r.Count))))
 //@   nopanic
-//@   loop 0 invariant[C13] 0 <= rangeindex + 1 && rangeindex + 1 <= len(r.Entries)
-//@   loop 0 invariant[C13] 0 <= payloadSize && payloadSize <= int(r.Count) && payloadSize <= len(entriesBuf.data)
-//@   loop 0 invariant[C13] r.Count == old(r.Count) && wr(b) == old(wr(b)) && b.data == old(b.data)
+//@   loop 0 invariant[C01,C13] 0 <= rangeindex + 1 && rangeindex + 1 <= len(r.Entries)
+//@   loop 0 invariant[C01,C13] 0 <= payloadSize && payloadSize <= int(r.Count) && payloadSize <= len(entriesBuf.data)
+//@   loop 0 invariant[C01,C13] r.Count == old(r.Count) && wr(b) == old(wr(b)) && b.data == old(b.data) && r.Entries == old(r.Entries)
+//@   loop 0 invariant[C01] @all-entries-so-far-are-in payloadSize == len(entriesBuf.data) && payloadSize == psize(r.Entries, rangeindex + 1)
 
 //@ fparam recv.lookup
 //@   params t, mt
